@@ -28,4 +28,13 @@ theorem newGUID_eq (f : Nsq.Gen.Codec.newGUIDState) (now : BitVec 64) :
 
 theorem twepoch_eq : Nsq.Gen.Codec.c_twepoch = (twepoch.toNat : Int) := by decide
 
+/-- `nsqd.New` refuses node ids outside `[0,1024)` (regenerated from nsqd/nsqd.go): the range
+hypothesis of `Props.C12.pack_unpack` is what the daemon enforces at start-up. -/
+theorem nodeID_range_checked : Nsq.Gen.Codec.newNodeID = ["if opts.ID < 0 || opts.ID >= 1024"] := by rfl
+
+/-- the field widths / shifts of the id layout are the model's -/
+theorem layout_eq : Nsq.Gen.Codec.c_timestampShift = 22 ∧ Nsq.Gen.Codec.c_nodeIDShift = 12 ∧
+    Nsq.Gen.Codec.c_sequenceMask = 4095 ∧ Nsq.Gen.Codec.c_nodeIDBits = 10 ∧
+    Nsq.Gen.Codec.c_sequenceBits = 12 := by decide
+
 end Nsq.Tie.Guid
